@@ -276,10 +276,27 @@ func c17Build(s string, depth int) (interface{}, string, bool) {
 	return nil, "", false
 }
 
+// a marshaler that panics: encoding/json re-panics, the caller recovers (as net/http does per request). Such a
+// call must leave no trace in later, ordinary calls.
+type c17PanicM struct{}
+
+func (c17PanicM) MarshalJSON() ([]byte, error) { panic("marshaler panic") }
+
+var c17Calls int
+
+func c17Poison() {
+	defer func() { _ = recover() }()
+	_, _ = safehtml.VerifScriptFromDataAndConstant("cfg", map[string]interface{}{"a": []interface{}{1, "x", c17PanicM{}}}, "init(cfg);")
+}
+
 func realScriptData(name, term, script string) string {
 	v, rest, ok := c17Build(term, 0)
 	if !ok || rest != "" {
 		return "bad-term"
+	}
+	c17Calls++
+	if c17Calls%5 == 0 {
+		c17Poison()
 	}
 	return guard(func() string {
 		s, err := safehtml.VerifScriptFromDataAndConstant(name, v, script)
